@@ -43,6 +43,7 @@ marker = st.one_of(
     st.tuples(st.just('file'), st.integers(0, 5), st.just('wild')),             # a case file named through the wildcard extension (cycles through .* markers)
     st.tuples(st.just('file'), st.integers(0, 5), st.just('wild')),
     st.tuples(st.just('shared'), st.integers(0, 1), st.just('')),
+    st.tuples(st.just('empty'), st.integers(0, 1), st.just('')),               # a file of zero bytes exists: its marker is replaced (by nothing)
 )
 part = st.one_of(seg.map(lambda s: ['t', s]), marker.map(lambda m: ['m'] + list(m)), marker.map(lambda m: ['m'] + list(m)))
 filest = st.fixed_dictionaries({
@@ -50,6 +51,7 @@ filest = st.fixed_dictionaries({
     'meta': st.sampled_from([None, None, [], ['.'], ['sub'], ['sub/'], ['..'], ['deep'], ['ABS0'], ['ABS1']]),
     'parts': st.lists(part, min_size=1, max_size=6),
     'tail': st.sampled_from(['end\n', 'end', '', '{{', '\n']),
+    'mstyle': st.sampled_from([0, 0, 0, 1, 2, 3]),      # metadata plain / YAML-fenced, file with LF / CRLF line endings
 })
 
 
@@ -121,6 +123,8 @@ def materialise(case, root, search):
     files['TOCnotes.txt'] = ('', 'TOCNOTES root {{shared1.txt}}\n')
     files['TOC-appendix.txt'] = ('', 'TOC APPENDIX root\n')
     files['sub/TOC2.txt'] = ('', 'TOC2 sub\n')
+    files['empty0.txt'] = ('', '')
+    files['sub/empty1.txt'] = ('', '')
     files['shared0.txt'] = ('', 'SHARED0 root {{shared1.txt}}\n')
     files['sub/shared1.txt'] = ('', 'SHARED1 sub\n')
     for i, f in enumerate(case['files']):
@@ -170,12 +174,20 @@ def materialise(case, root, search):
                 body += '{{ ' + 'y ' * (a // 2) + ' '
             elif kind == 'shared':
                 body += '{{shared%d.txt}}' % a
+            elif kind == 'empty':
+                body += '{{empty%d.txt}}' % a
         body += f['tail']
-        files[names[i]] = (meta, ('\n' if meta else '') + body)
+        ms = f.get('mstyle', 0)
+        if meta and ms in (1, 3):
+            meta = '---\n' + meta + '---\n'
+        body = ('\n' if meta else '') + body
+        if ms in (2, 3):
+            meta, body = meta.replace('\n', '\r\n'), body.replace('\n', '\r\n')
+        files[names[i]] = (meta, body)
         for e in ('.html', '.tex', '.fodt'):
             files[names[i][:-4] + e] = files[names[i]]
     for rel, (m, b) in files.items():
-        with open(os.path.join(root, rel), 'w', encoding='utf-8') as fh:
+        with open(os.path.join(root, rel), 'w', encoding='utf-8', newline='') as fh:
             fh.write(m + b)
     return names, files
 
@@ -289,7 +301,13 @@ def check(case, ctx):
         # every manifest entry was named by some marker: it is either a visited file or a non-existing path
         # second API family must agree
         fam = ['s', 'd', 'e'][case['cli'] % 3]
-        m2 = [m for m in w.call('manifest', fam, search, top_path, src)[1].decode('utf-8', 'surrogateescape').split('\n') if m]
+        mr = w.call('manifest', fam, search, top_path, src)
+        m2 = [m for m in mr[1].decode('utf-8', 'surrogateescape').split('\n') if m]
+        # listing is not transcluding: the object keeps its text, and asking again gives the same list
+        if mr[2] != mr[1]:
+            raise Violation('manifest:second-call-differs', 'family %s: %r then %r' % (fam, mr[1], mr[2]))
+        if mr[3].decode('utf-8', 'surrogateescape') != src:
+            raise Violation('manifest:source-modified', 'family %s: the text held by the caller changed\nbefore=%r\nafter=%r' % (fam, src, mr[3]))
         if fmt in ('html',) and m2 != manifest:
             raise Violation('manifest:family-disagree', '%r vs %r' % (m2, manifest))
         ctx.cls('manifest_checked')
